@@ -8,3 +8,5 @@ def run(ctx, rep):
     driver.rule_expert_order_refine(mod, rep)
     cond.rule_gsrfs_table(mod, rep)
     cond.rule_refine_fresh(mod, rep)
+    from ..rules import misc
+    misc.rule_dense_stride(mod, rep)
